@@ -811,6 +811,82 @@ func runScaleProfiles(c *harness.Ctx) harness.Result {
 	return res
 }
 
+// part tagrange: unit conversion as the tag filters use it. Samples carry the numeric tag "bytes"
+// (in bytes) or "dur" (in nanoseconds); tagfocus is a value or range in a coarser unit (kb, mb, us,
+// ms, s). A sample is selected iff value x unit lies in the range, compared exactly (no rounding to
+// the filter's unit).
+func runTagRange(c *harness.Ctx) harness.Result {
+	r := c.Rng
+	type fam struct {
+		key, unit string
+		units     []string
+		factor    map[string]int64
+	}
+	f := []fam{{"bytes", "bytes", []string{"kb", "mb", "b"}, map[string]int64{"b": 1, "kb": 1 << 10, "mb": 1 << 20}},
+		{"dur", "nanoseconds", []string{"us", "ms", "s", "ns"}, map[string]int64{"ns": 1, "us": 1000, "ms": 1000000, "s": 1000000000}}}[r.Intn(2)]
+	u := f.units[r.Intn(len(f.units))]
+	uf := f.factor[u]
+	lo, hi := int64(r.Intn(4)), int64(1+r.Intn(5))
+	if hi < lo {
+		lo, hi = hi, lo
+	}
+	p := &profile.Profile{SampleType: []*profile.ValueType{{Type: "n", Unit: "count"}}, PeriodType: &profile.ValueType{Type: "cpu", Unit: "ns"}, Period: 1}
+	fn := &profile.Function{ID: 1, Name: "f", SystemName: "f", Filename: "x.go"}
+	loc := &profile.Location{ID: 1, Address: 0x1000, Line: []profile.Line{{Function: fn, Line: 1}}}
+	p.Function, p.Location = []*profile.Function{fn}, []*profile.Location{loc}
+	vals := map[string]int64{}
+	for i := 0; i < 10; i++ {
+		// values on, just below and just above multiples of the filter's unit, and halfway
+		v := int64(r.Intn(7))*uf + []int64{0, 1, -1, uf / 2, uf/2 + 1, 0}[r.Intn(6)]
+		if v < 0 {
+			v = 0
+		}
+		id := fmt.Sprint(i)
+		vals[id] = v
+		p.Sample = append(p.Sample, &profile.Sample{Value: []int64{1}, Location: []*profile.Location{loc}, Label: map[string][]string{"id": {id}}, NumLabel: map[string][]int64{f.key: {v}}, NumUnit: map[string][]string{f.key: {f.unit}}})
+	}
+	form := r.Intn(4)
+	filter := map[int]string{0: fmt.Sprintf("%d%s:%d%s", lo, u, hi, u), 1: fmt.Sprintf("%d%s:", lo, u), 2: fmt.Sprintf(":%d%s", hi, u), 3: fmt.Sprintf("%d%s", lo, u)}[form]
+	in := func(v int64) bool {
+		switch form {
+		case 0:
+			return v >= lo*uf && v <= hi*uf
+		case 1:
+			return v >= lo*uf
+		case 2:
+			return v <= hi*uf
+		}
+		return v == lo*uf
+	}
+	opt := []string{"tagfocus", "tagignore"}[r.Intn(2)]
+	desc := fmt.Sprintf("%s=%s on tag %s (in %s) with values %v", opt, filter, f.key, f.unit, vals)
+	res := harness.Result{NonTrivial: true, Sig: desc, Sample: desc}
+	out, ui, rr := drv.Report(map[string]*profile.Profile{"p": p}, []string{"p"}, map[string]bool{"proto": true}, map[string]string{opt: filter}, nil, nil, nil)
+	if rr.Panic != "" || rr.Err != nil {
+		return harness.Violation("%s: failed: %v %s %v", desc, rr.Err, rr.Panic, ui.Errs)
+	}
+	q, err := profile.ParseData([]byte(out))
+	if err != nil {
+		return harness.Violation("%s: output unparseable: %v", desc, err)
+	}
+	c.Stat("tag_range_filters", 1)
+	got := map[string]bool{}
+	for _, sm := range q.Sample {
+		if v := sm.Label["id"]; len(v) == 1 {
+			got[v[0]] = true
+		}
+	}
+	for id, v := range vals {
+		want := in(v) == (opt == "tagfocus")
+		if got[id] != want {
+			res.Verdict = harness.Violated
+			res.Detail = fmt.Sprintf("%s: the sample tagged %d %s is kept=%v; %d %s is exactly %d/%d %s, so kept=%v is expected", desc, v, f.unit, got[id], v, f.unit, v, uf, u, want)
+			return res
+		}
+	}
+	return res
+}
+
 // part parallel: labels are a function of (value, unit, target) also when several goroutines format
 // at once (web handlers do): the labels computed by 8 goroutines equal the ones computed one at a time.
 func runParallel(c *harness.Ctx) harness.Result {
@@ -975,6 +1051,7 @@ func init() {
 			{Name: "scaleprofiles", Quick: 2000, Thor: 200000, Run: runScaleProfiles},
 			{Name: "nodelets", Quick: 600, Thor: 30000, Run: runNodelets},
 			{Name: "parallel", Quick: 40, Thor: 2000, Run: runParallel},
+			{Name: "tagrange", Quick: 600, Thor: 30000, Run: runTagRange},
 		},
 		Extra: func(tier string, st map[string]int64) map[string]any {
 			return map[string]any{"exhaustive_part": "lattice", "lattice_sources": len(fromSpecs)}
